@@ -699,6 +699,7 @@ open DendroModel.C11.Aux
 def covered : Op → Bool
   | .add _ (.trees _) => false
   | .lclone _ _ | .mclone _ _ | .lmig _ _ _ | .lrec _ _ | .mmig _ _ _ | .mrec _ _ | .dsunify _ _ | .dsread _ _ _ _ => false
+  | .readx _ _ _ | .tlget _ _ _ | .tget _ _ _ | .mget _ _ _ _ => false
   | _ => true
 
 /-- clauses (a),(c) hold in the empty world -/
@@ -1026,6 +1027,10 @@ theorem closed_step_partial (s : Store) (op : Op) (h : Inv s) (hv : valid s op =
   | dsunify d n => simp [covered] at hc
   | dsread d taxa rows trees => simp [covered] at hc
   | taadd n t => simp only [step]; exact h
+  | readx l pre docs => simp [covered] at hc
+  | tlget n pre docs => simp [covered] at hc
+  | tget n pre labels => simp [covered] at hc
+  | mget n last pre rows => simp [covered] at hc
   | newtreeseed l t =>
     simp only [inRange, decide_eq_true_eq] at hr
     simp only [step]
@@ -1989,6 +1994,18 @@ theorem inv_readTreeBlock {s : Store} (h : Inv s) (d n : Nat) (docs : List (List
   rw [e]
   exact e3 t ht
 
+/-- trees read from a further source into list `l` (any schema: with or without a TAXA-like block) -/
+theorem inv_readInto {s : Store} (h : Inv s) (l : Nat) (pre : List String) (docs : List (List String)) (hl : l < s.nTl) :
+    Inv (readInto s l pre docs) := by
+  simp only [readInto]
+  obtain ⟨g, _⟩ := grows_requireList (s.tl l).ns (s.ns (s.tl l).ns).cs pre s
+  have i1 := inv_grows g h
+  obtain ⟨i2, f2, e2⟩ := inv_readTrees (s.tl l).ns docs i1
+  apply inv_appendNew i1 i2 f2 l (by rw [g.nTl]; exact hl)
+  intro t ht
+  rw [g.tl]
+  exact e2 t ht
+
 /-- the four shapes of a document, read into namespace `n` of a data set that is detached or attached to `n` -/
 theorem inv_dsread_core {σ : Store} (i0 : Inv σ) (d n : Nat) (cs : Bool) (taxa : List String) (a0 : AttOk σ d n) :
     Inv (requireList σ n cs taxa).1
@@ -2093,6 +2110,38 @@ theorem closed_step (s : Store) (op : Op) (h : Inv s) (hv : valid s op = true) :
     | dsread d taxa rows trees =>
       simp only [inRange, decide_eq_true_eq] at hr
       exact inv_dsread h d taxa rows trees hr
+    | readx l pre docs =>
+      simp only [inRange, decide_eq_true_eq] at hr
+      simp only [step]; exact inv_readInto h l pre docs hr
+    | tlget n pre docs =>
+      simp only [step]
+      exact inv_readInto (inv_allocTl h n) _ pre docs (by simp [allocTl])
+    | tget n pre labels =>
+      simp only [step]
+      obtain ⟨g1, _⟩ := grows_requireList n (s.ns n).cs pre s
+      obtain ⟨g2, m2⟩ := grows_requireLastList n (s.ns n).cs labels (requireList s n (s.ns n).cs pre).1
+      apply inv_allocTree (inv_grows (g1.trans g2) h)
+      intro x hx
+      simp at hx
+      exact m2 x hx
+    | mget n last pre rows =>
+      simp only [step]
+      obtain ⟨g1, _⟩ := grows_requireList n (s.ns n).cs pre s
+      cases last with
+      | true =>
+        obtain ⟨g2, m2⟩ := grows_requireLastList n (s.ns n).cs rows (requireList s n (s.ns n).cs pre).1
+        apply inv_allocMat (inv_grows (g1.trans g2) h)
+        intro x hx
+        rcases mergeKeys_sub _ _ x hx with hx | hx
+        · simp at hx
+        · exact m2 x hx
+      | false =>
+        obtain ⟨g2, m2⟩ := grows_requireList n (s.ns n).cs rows (requireList s n (s.ns n).cs pre).1
+        apply inv_allocMat (inv_grows (g1.trans g2) h)
+        intro x hx
+        rcases mergeKeys_sub _ _ x hx with hx | hx
+        · simp at hx
+        · exact m2 x hx
     | _ => simp [covered] at hc
 
 /-- a history every step of which is inside the ownership domain -/
@@ -2839,6 +2888,34 @@ theorem fresh_step (s : Store) (op : Op) (h : FrAll s) : FrAll (step s op).1 := 
         | none => simp only [step, hatt]; exact c2 rws
         | some docs => simp only [step, hatt]; exact c3 _ (c2 rws) docs
   | taadd n t => simp only [step]; exact h
+  | readx l pre docs => simp only [step]; exact frAll_readInto h l pre docs
+  | tlget n pre docs => simp only [step]; exact frAll_readInto (frAll_allocTl h n) _ pre docs
+  | tget n pre labels =>
+    simp only [step]
+    obtain ⟨a1, _, _⟩ := frAll_requireList n (s.ns n).cs pre h
+    obtain ⟨a2, _, c2⟩ := frAll_requireLastList n (s.ns n).cs labels a1
+    apply frAll_allocTree a2
+    intro x hx
+    simp at hx
+    exact c2 x hx
+  | mget n last pre rows =>
+    simp only [step]
+    obtain ⟨a1, _, _⟩ := frAll_requireList n (s.ns n).cs pre h
+    cases last with
+    | true =>
+      obtain ⟨a2, _, c2⟩ := frAll_requireLastList n (s.ns n).cs rows a1
+      apply frAll_allocMat a2
+      intro x hx
+      rcases Fresh.mergeKeys_sub _ _ x hx with hx | hx
+      · simp at hx
+      · exact c2 x hx
+    | false =>
+      obtain ⟨a2, _, c2⟩ := frAll_requireList n (s.ns n).cs rows a1
+      apply frAll_allocMat a2
+      intro x hx
+      rcases Fresh.mergeKeys_sub _ _ x hx with hx | hx
+      · simp at hx
+      · exact c2 x hx
   | newtreeseed l t =>
     simp only [step]
     obtain ⟨a, b⟩ := frAll_addTaxa (s.tl l).ns (s.tree t).taxa h (h.tree t)
